@@ -335,7 +335,13 @@ def run_case(ctx, oq, cfg, qmm, rng):
 
     # 1. the quantized linear function (which must not touch its operands)
     xfp, wfp = fp.tensor_fp(x), fp.tensor_fp(w)
-    out, exc = guarded("linear", F.linear, x, w, bias)
+    spell = rng.random()  # the same call, spelled the three ways torch documents it
+    if spell < 0.7:
+        out, exc = guarded("linear", F.linear, x, w, bias)
+    elif spell < 0.85:
+        out, exc = guarded("linear", lambda: F.linear(x, weight=w, bias=bias))
+    else:
+        out, exc = guarded("linear", lambda: F.linear(input=x, weight=w, bias=bias))
     if fp.tensor_fp(x) != xfp or fp.tensor_fp(w) != wfp:
         ctx.violation(dict(kind="operand_modified", route="linear", act=sigx["act"] != "float", weight=cfg["wk"],
                            dtype=str(cfg["wd"]), N1=cfg["N"] == 1), dict(cfg=cfgj(cfg)))
